@@ -17,7 +17,7 @@ def gen_schedule(rng, nthreads, length=900):
 def main():
     R = vf.Report(PID)
     proved = R.proof_step()
-    n = 1200 if R.thorough else 70
+    n = 6000 if R.thorough else 70
     scheds = []
     # systematic: one thread runs k steps, then the other runs to completion, then the first finishes (a preemption at every accessor boundary of the first ~120 lines)
     for a, b in (("pytree", "array"), ("array", "pytree"), ("calls", "question"), ("question", "array"), ("pytree", "question")):
